@@ -172,7 +172,15 @@ class HplExpression(HplAstObject):
         stack = [self]
         while stack:
             obj = stack.pop()
-            if obj.is_accessor:
+            if obj.is_quantifier:
+                # the bound variable has the type of the elements of the domain
+                obj.domain.type_check_references(this_msg, variables)
+                token = _element_type_token(obj.domain, this_msg, variables)
+                if token is not None and token.is_message:
+                    variables = dict(variables)
+                    variables[obj.variable] = token
+                obj.condition.type_check_references(this_msg, variables)
+            elif obj.is_accessor:
                 obj.type_check_references(this_msg, variables)
                 # the chain itself has been checked; references inside its indices have not
                 while obj.is_accessor:
@@ -181,6 +189,25 @@ class HplExpression(HplAstObject):
                     obj = obj.object
             else:
                 stack.extend(reversed(obj.children()))
+
+
+def _element_type_token(
+    domain: HplExpression,
+    this_msg: TypeToken,
+    variables: Mapping[str, TypeToken],
+) -> Optional[TypeToken]:
+    # type token of the elements of a quantifier domain that is a reference to an array (else None)
+    chain = []
+    expr = domain
+    while expr.is_accessor:
+        chain.append(expr)
+        expr = expr.object
+    if not chain:
+        return None
+    token = this_msg if expr.is_this_msg else variables.get(expr.name)
+    while chain and token is not None:
+        token = chain.pop()._get_next_token(token)
+    return token.subtype if token is not None and token.is_array else None
 
 
 def _type_checker(
@@ -575,7 +602,7 @@ class HplQuantifier(HplExpression):
         # 2. must not redefine the quantified variable
         # 3. must assume the variable is of the type of domain elements
         v: str = self.variable
-        t: DataType = DataType.PRIMITIVE
+        t: DataType = DataType.ITEM  # elements of an array may be messages
         if self.domain.is_value and (self.domain.is_set or self.domain.is_range):
             t = self.domain.subtypes
         used: int = 0
